@@ -21,6 +21,10 @@ pub struct Checked {
 
 /// static verification on all paths + a probed run
 pub fn check_source(src: &str, t: &Table) -> Result<Checked, Fail> {
+    check_source_budget(src, t, 60_000)
+}
+
+pub fn check_source_budget(src: &str, t: &Table, budget: u64) -> Result<Checked, Fail> {
     note_current("parse", src);
     let code = match std::panic::catch_unwind(|| compile(src)) {
         Ok(Ok(c)) => c,
@@ -33,7 +37,7 @@ pub fn check_source(src: &str, t: &Table) -> Result<Checked, Fail> {
         return Err((format!("static:{}", f.class), case, "bytecode that is safe on every path".into(), f.detail.clone()));
     }
     let b = boundaries(&code, t);
-    let o = run_eval_bounds(src, &RunCfg { budget: 60_000, audit_heap: false }, b);
+    let o = run_eval_bounds(src, &RunCfg { budget, audit_heap: false }, b);
     let probe = o.events.iter().find(|e| e.starts_with("probe"));
     if let Some(e) = probe {
         let short: String = e.split(|c: char| c.is_ascii_digit()).next().unwrap_or(e).trim().to_string();
@@ -154,6 +158,28 @@ pub fn run_check(ctx: &Ctx) -> Report {
         Err(e) => {
             eprintln!("C02: verifier self-test failed: {e}");
             std::process::exit(2);
+        }
+    }
+    // directed: recursion around the 16-bit stack limit (frame base arithmetic), every depth near the crossing
+    for (src_of, _) in crate::props::c12::limit_shapes() {
+        let (mut lo, mut hi) = (1i64, 70_000i64);
+        while lo < hi {
+            let mid = (lo + hi + 1) / 2;
+            let ok = matches!(run_eval(&src_of(mid).0, &RunCfg { budget: 30_000_000, audit_heap: false }).outcome, Outcome::Value(_));
+            if ok {
+                lo = mid;
+            } else {
+                hi = mid - 1;
+            }
+        }
+        for depth in (lo - 8).max(1)..=(lo + 8) {
+            let src = src_of(depth).0;
+            rep.eval();
+            rep.count("inputs:stack-limit-sweep");
+            match check_source_budget(&src, &table, 30_000_000) {
+                Ok(_) => rep.nontrivial(&src),
+                Err(f) => rep.violation(Violation { property: "C02".into(), driver: "stack-limit-sweep".into(), class: f.0, case: f.1, expected: f.2, observed: f.3 }),
+            }
         }
     }
     let cases = ctx.pick(600_000u32, 12_000_000u32) / ctx.shards as u32;
